@@ -31,6 +31,7 @@ func runC20(c *Ctx) {
 	c.Doc("R20.4", "CursorToOffset fails on undecodable input; OffsetToCursor and CursorToOffset share the cursor prefix constant")
 	c.Doc("R20.6", "every edge maker call receives a node of the list scanned and that node's position in the list as passed in (loop index, plus the number of elements cut off the front when a suffix is scanned: the companion phi of the list phi holds exactly the low bound of each cut); the after-cut is source[j+1:] for the matched position j; in the before-scan nothing is collected before the comparison or after a match, and a match leaves the loop")
 	c.Doc("R20.5", "the source of every connections.*Con call is not an unsorted map walk")
+	checkArrayIndexBounds(c)
 	p := w.Pkg("api/graphql/connections")
 	if p == nil {
 		c.Undecided("R20.1", "anchor:api/graphql/connections", "api/graphql/connections", "package not found")
@@ -391,19 +392,21 @@ func checkCursorFns(c *Ctx) {
 	}
 	c.Check(ok, "R20.4", "CursorToOffset:invalid-is-error", w.FnPos(c2o), "an undecodable cursor is an error", "an undecodable cursor does not produce an error")
 	prefix, _ := pkgConstString(w, "api/graphql/connections", "cursorPrefix")
-	uses := func(fn *ssa.Function) bool {
-		for _, b := range fn.Blocks {
-			for _, ins := range b.Instrs {
-				for _, op := range ins.Operands(nil) {
-					if op == nil || *op == nil {
-						continue
-					}
-					if s, isS := constString(stripConv(*op)); isS && s == prefix {
-						return true
-					}
-					if mi, isMI := (*op).(*ssa.MakeInterface); isMI {
-						if s, isS := constString(mi.X); isS && s == prefix {
+	uses := func(fn0 *ssa.Function) bool {
+		for _, fn := range fnAndHelpers(fn0, 2) {
+			for _, b := range fn.Blocks {
+				for _, ins := range b.Instrs {
+					for _, op := range ins.Operands(nil) {
+						if op == nil || *op == nil {
+							continue
+						}
+						if s, isS := constString(stripConv(*op)); isS && s == prefix {
 							return true
+						}
+						if mi, isMI := (*op).(*ssa.MakeInterface); isMI {
+							if s, isS := constString(mi.X); isS && s == prefix {
+								return true
+							}
 						}
 					}
 				}
@@ -1004,4 +1007,85 @@ func lessNotTotal(cl *Call) string {
 		}
 	}
 	return ""
+}
+
+// R20.8: indexing a fixed-size array with a computed index is dominated by tests that bound the index to
+// [0, N-1]. (A table of precomputed cursors looked up with `offset <= len(table)` panics at offset N for
+// every list that long.)
+func checkArrayIndexBounds(c *Ctx) {
+	w := c.W
+	c.Doc("R20.8", "in api/graphql: every access arr[i] to a fixed-size array with a non-constant index is control dependent on comparisons of i with constants that imply 0 <= i <= len(arr)-1 (ranges over the array itself are exempt)")
+	n := 0
+	for _, f := range w.ModFns {
+		if isInstance(f) || w.isTestHelper(f) || !strings.HasPrefix(fnPkgPath(f), modPath+"/api/graphql") {
+			continue
+		}
+		for _, b := range f.Blocks {
+			for _, ins := range b.Instrs {
+				ia, ok := ins.(*ssa.IndexAddr)
+				if !ok {
+					continue
+				}
+				t := ia.X.Type()
+				if p, isP := t.Underlying().(*types.Pointer); isP {
+					t = p.Elem()
+				}
+				arr, isArr := t.Underlying().(*types.Array)
+				if !isArr {
+					continue
+				}
+				if _, isK := constInt(ia.Index); isK {
+					continue
+				}
+				// range over the array: index is the loop phi bounded by len
+				if ph, isPhi := ia.Index.(*ssa.Phi); isPhi && isLoopHeader(ph.Block()) {
+					continue
+				}
+				if bo, isBo := ia.Index.(*ssa.BinOp); isBo && bo.Op == token.ADD {
+					if ph, isPhi := bo.X.(*ssa.Phi); isPhi && isLoopHeader(ph.Block()) {
+						continue
+					}
+				}
+				n++
+				c.Sites++
+				c.seeFn(funcName(f))
+				hi, lo := int64(1<<62), int64(-1<<62)
+				for _, cc := range controlConds(b, nil) {
+					bo, isBo := cc.If.Cond.(*ssa.BinOp)
+					if !isBo || !isCmpOp(bo.Op) {
+						continue
+					}
+					op, x, y := bo.Op, bo.X, bo.Y
+					if y == ia.Index || stripConv(y) == stripConv(ia.Index) {
+						op, x, y = swapOp(op), y, x
+					}
+					if !(x == ia.Index || stripConv(x) == stripConv(ia.Index)) {
+						continue
+					}
+					k, isK := constInt(y)
+					if !isK {
+						continue
+					}
+					if cc.Edge == 1 {
+						op = negateOp(op)
+					}
+					switch op {
+					case token.LSS:
+						hi = minI(hi, k-1)
+					case token.LEQ:
+						hi = minI(hi, k)
+					case token.GTR:
+						lo = maxI(lo, k+1)
+					case token.GEQ:
+						lo = maxI(lo, k)
+					case token.EQL:
+						hi, lo = minI(hi, k), maxI(lo, k)
+					}
+				}
+				c.Check(lo >= 0 && hi <= arr.Len()-1, "R20.8", funcName(f)+":array-index", w.InstrPos(ia), fmt.Sprintf("index bounded to [%d,%d] within an array of %d", lo, hi, arr.Len()),
+					fmt.Sprintf("the index into an array of %d elements is only known to lie in [%d,%d]: an access one past the end panics for every list long enough to reach it", arr.Len(), lo, hi))
+			}
+		}
+	}
+	c.Info("R20.8", "array-index-sites", "api/graphql", fmt.Sprintf("%d computed accesses to fixed-size arrays", n))
 }
